@@ -1599,18 +1599,37 @@ def run_thread_case(ctx, idx, rng, lines=False):
         if storage == "ram":
             # existence / length probes of RamStorage are no tap events; log them (no scheduling point) so that the
             # classifier of the listed finding has the same evidence as on disk
-            ram_saved = (RamStorage.file_exists, RamStorage.file_length)
+            # LINE-level schedules have scheduling points INSIDE RamStorage.file_exists / file_length / open_file (between
+            # the call and the dictionary look-up), so a look-up that did not find the file is logged again when it
+            # returns: that is the moment that counts for "the file had been removed when it was looked for"
+            ram_saved = (RamStorage.file_exists, RamStorage.file_length, RamStorage.open_file)
 
             def file_exists(self_, name, _f=ram_saved[0]):
                 if self_ is st:
                     H.ram_probe(name)
-                return _f(self_, name)
+                found = _f(self_, name)
+                if self_ is st and not found:
+                    H.ram_probe(name)
+                return found
 
             def file_length(self_, name, _f=ram_saved[1]):
                 if self_ is st:
                     H.ram_probe(name)
-                return _f(self_, name)
-            RamStorage.file_exists, RamStorage.file_length = file_exists, file_length
+                try:
+                    return _f(self_, name)
+                except IOError:
+                    if self_ is st:
+                        H.ram_probe(name)
+                    raise
+
+            def open_file(self_, name, _f=ram_saved[2], **kw):
+                try:
+                    return _f(self_, name, **kw)
+                except IOError:
+                    if self_ is st:
+                        H.ram_probe(name)
+                    raise
+            RamStorage.file_exists, RamStorage.file_length, RamStorage.open_file = file_exists, file_length, open_file
         try:
             if env.lines is not None:
                 env.lines.install()
@@ -1620,7 +1639,7 @@ def run_thread_case(ctx, idx, rng, lines=False):
             if env.lines is not None:
                 env.lines.uninstall()
             if ram_saved is not None:
-                RamStorage.file_exists, RamStorage.file_length = ram_saved
+                RamStorage.file_exists, RamStorage.file_length, RamStorage.open_file = ram_saved
         tap.on_event = None
         if env.lines is not None:
             ctx.count("lines.schedules")
